@@ -164,7 +164,23 @@ func solveAll(jobs []job, dir string, secs, par int) {
 			defer func() { <-sem }()
 			q := j.e.buildQuery(j.o, true)
 			j.o.QueryBytes = len(q)
-			r := solve(q, dir, fmt.Sprintf("%04d_%s", idx, j.o.Name), secs, "")
+			var r solveResult
+			if !j.o.Cover {
+				// stage 1: drop quantified hypotheses (weaker assumptions: unsat still proves the goal)
+				if qs, changed := stripQuantified(q); changed {
+					s1 := 3
+					if secs < s1 {
+						s1 = secs
+					}
+					r = solve(qs, dir, fmt.Sprintf("%04d_%s.qf", idx, j.o.Name), s1, "")
+					if r.result == "unsat" {
+						r.backend += "(qf)"
+					}
+				}
+			}
+			if r.result != "unsat" {
+				r = solve(q, dir, fmt.Sprintf("%04d_%s", idx, j.o.Name), secs, "")
+			}
 			j.o.Result, j.o.Backend, j.o.Secs, j.o.Output = r.result, r.backend, r.secs, r.output
 			if r.result == "sat" {
 				j.o.Model = parseModel(r.output, j.o.modelTerms)
@@ -260,4 +276,35 @@ func smtInt(v string) (string, bool) {
 		}
 	}
 	return v, v != ""
+}
+
+// stripQuantified removes every assumption line containing a quantifier, keeping the final goal.
+func stripQuantified(q string) (string, bool) {
+	lines := strings.Split(q, "\n")
+	// goal = last "(assert" line before (check-sat)
+	goalIdx := -1
+	for i, l := range lines {
+		if strings.HasPrefix(l, "(check-sat)") {
+			for k := i - 1; k >= 0; k-- {
+				if strings.HasPrefix(lines[k], "(assert") {
+					goalIdx = k
+					break
+				}
+			}
+			break
+		}
+	}
+	changed := false
+	var out []string
+	for i, l := range lines {
+		if i != goalIdx && strings.HasPrefix(l, "(assert") && (strings.Contains(l, "(forall ") || strings.Contains(l, "(exists ")) {
+			changed = true
+			continue
+		}
+		if strings.HasPrefix(l, "(get-value") {
+			continue
+		}
+		out = append(out, l)
+	}
+	return strings.Join(out, "\n"), changed
 }
